@@ -321,6 +321,10 @@ class Hist:
             return fn(*a, **kw)
         except ApiRaised as ar:
             exc = ar.exc
+            if isinstance(exc, _Timeout):
+                # the harness's own wall-clock watchdog fired while the victim was inside an API call (loaded
+                # machine): inconclusive for this history, never a verdict about the library
+                raise exc
             self.res.count("c7_raised")
             w = exc_witness(exc)
             w["call"] = ar.call
@@ -1023,8 +1027,8 @@ def _merge(res, d):
     res.inconclusive.extend(d.get("inconclusive", []))
 
 
-class _Timeout(Exception):
-    pass
+class _Timeout(BaseException):
+    """wall-clock watchdog; a BaseException so that no `except Exception` in the harness or the library swallows or wraps it"""
 
 
 def _alarm(signum, frame):
